@@ -7,6 +7,7 @@
 -/
 import OpmVerif.Proofs.Unrst
 import OpmVerif.Proofs.EclBinExt
+import OpmVerif.Proofs.UnrstFmt
 
 namespace OpmVerif.Props.C08
 open OpmVerif.Ecl OpmVerif.Unrst
@@ -62,7 +63,42 @@ theorem truncation_exact_or_error (as : List Arr) (hwf : ∀ a ∈ as, a.WF) (k 
     as[i]? = some a :=
   Ecl.truncation_exact_or_error as hwf k idx hidx i hi a hload
 
+/-- **Formatted** files (`.FUNRST`): after any sequence of report-step writes, rewinds
+included, the file equals what writing the surviving steps into a fresh file would have
+produced.  The model covers the header-line index, `sizeOnDiskFormatted`, `std::stoi` on the
+SEQNUM value and the 31-character write position arithmetic. -/
+theorem rewind_eq_fresh_formatted (n : Nat) (as : List EclFmt.FArr) (h : List (Nat × List EclFmt.FArr))
+    (hx : UnrstFmt.StepWF (n, as)) (hh : ∀ s ∈ h, UnrstFmt.StepWF s) :
+    UnrstFmt.runHistory none ((n, as) :: h) =
+      some (some (UnrstFmt.fresh (UnrstFmt.specRun [] ((n, as) :: h)))) :=
+  UnrstFmt.runHistory_from_nothing n as h hx hh
+
+/-- The refinement step for formatted files. -/
+theorem write_step_refines_formatted (st : UnrstFmt.Steps) (hne : st ≠ [])
+    (hwf : ∀ s ∈ st, UnrstFmt.StepWF s) (hs : UnrstFmt.Sorted st) (n : Nat) (as : List EclFmt.FArr) :
+    UnrstFmt.writeStep (some (UnrstFmt.fresh st)) n as = some (UnrstFmt.fresh (UnrstFmt.specStep st n as)) :=
+  UnrstFmt.writeStep_refines st hne hwf hs n as
+
+/-- Formatted: the surviving steps are strictly increasing, earlier steps are a prefix of the
+old file and the step just written is last. -/
+theorem formatted_steps_increasing_and_preserved (st : UnrstFmt.Steps) (hs : UnrstFmt.Sorted st) (n : Nat)
+    (as : List EclFmt.FArr) :
+    UnrstFmt.Sorted (UnrstFmt.specStep st n as) ∧
+    UnrstFmt.fresh (UnrstFmt.specStep st n as) =
+      UnrstFmt.fresh (st.filter (fun s => s.1 < n)) ++ UnrstFmt.fresh [(n, as)] ∧
+    UnrstFmt.fresh (st.filter (fun s => s.1 < n)) <+: UnrstFmt.fresh st := by
+  refine ⟨UnrstFmt.specStep_sorted hs n as, by simp [UnrstFmt.specStep, UnrstFmt.fresh_append], ?_⟩
+  have h := UnrstFmt.filter_split_sorted n st hs
+  exact ⟨UnrstFmt.fresh (st.filter (fun s => ¬ s.1 < n)), by rw [← UnrstFmt.fresh_append, ← h]⟩
+
 /-! Non-vacuity: a rewind history on concrete data. -/
+
+def farrA : EclFmt.FArr := { name := "IWEL    ".toList, t := .inte, ints := [7, -3, 2147483647] }
+def farrB : EclFmt.FArr := { name := "ZWEL    ".toList, t := .char, strs := ["P1".toList, "I'2".toList] }
+
+example : UnrstFmt.runHistory none [(1, [farrA]), (2, []), (3, [farrB]), (2, [farrB, farrA])] =
+    some (some (UnrstFmt.fresh [(1, [farrA]), (2, [farrB, farrA])])) := by decide +kernel
+
 
 def arrA : Arr := { name := [80, 82, 69, 83, 83, 85, 82, 69], ty := .real, elems := [[66, 200, 0, 0], [66, 200, 0, 1]] }
 
